@@ -27,7 +27,9 @@ META = {
             "crash after a completed save loads exactly that save. C10_dirty_complete_v0_refuted documents repaired "
             "defect F9 (raiseValidity without setDirty: stored 257 vs live 258). C10_load_blocks_topological - "
             "loadBlockForward + recoverEndorsements over any parent-before-child order restore exactly the stored "
-            "fields; C10_reload_equiv_partial - for any history and any placement of saves, load of the accumulated "
+            "fields; C10_recovery_window_iff_live_rule - the endorsement-recovery window of loadBlockInner (explicit "
+            "parameter of the model) accepts exactly the endorsements the live settlement rule accepts, with "
+            "C10_recovery_window_short_refuted for the window shortened by one; C10_reload_equiv_partial - for any history and any placement of saves, load of the accumulated "
             "storage succeeds and yields the tip and every live block's persisted projection (status, payload ids, "
             "containing endorsements, refcount, parent, height) as of the last save. PARTIAL: premises about the "
             "saved state are assumed, not proved for all reachable states (structural consistency of the stored block "
@@ -35,7 +37,8 @@ META = {
             "that is ACTIVE and fully valid so that loadTip changes nothing persisted), and "
             "the rebuilt endorsedBy/block-of-proof lists are not described - those parts are checked by the direct "
             "oracle and by the model/implementation comparison of load. Direct oracle on the rebuilt "
-            "library: for generated histories (forks, reorgs, invalid payloads, invalidate/revalidate, remove, "
+            "library: for generated histories under small settlement intervals (ATV and VTB endorsements at every "
+            "distance up to and including the boundary; forks, reorgs, invalid payloads, invalidate/revalidate, remove, "
             "body-before-parent-body) and EVERY placement of up to 3 save points (sampled for long histories) a fresh "
             "instance loaded from a copy of the storage taken at each save equals the live instance (full observation "
             "of all three trees) and answers every later operation identically; with a save after every operation "
@@ -50,7 +53,8 @@ META = {
                  "save-point enumeration with reload/crash oracle",
 }
 
-CFG = {"alt_ki": 5, "alt_settle": 8, "payout_delay": 8, "payout_avg": 3}
+# small settlement intervals: endorsements at every distance up to and including the boundary are generated
+CFG = {"alt_ki": 5, "alt_settle": 5, "payout_delay": 5, "payout_avg": 3, "vbk_settle": 6, "vbk_preserve": 6}
 
 EQUIV = (
     "persisted-equivalence used by the oracle: the sorted observation of ALL three trees through public getters "
